@@ -173,6 +173,8 @@ def oracle(ctx, docs):
 def run(ctx):
     ctx.broken += common.proof_stage(ctx, THEOREMS)
     docs = [doc(ctx.rng) for _ in range(3000 if ctx.quick() else 40000)]
+    common.model_tie(ctx, docs, 'core', 'doc', limit=(1200 if ctx.quick() else 12000))
+    common.model_tie(ctx, docs[::3], 'core-hardwrap', 'doc', limit=(400 if ctx.quick() else 4000))
     n = oracle(ctx, docs)
     if ctx.broken and not ctx.failures:
         ctx.notes.append("search mode entered")
